@@ -9,11 +9,13 @@ PREFIX, SUFFIX = 0xCC, [0xC3, 0x3C, 0x33, 0xCE, 0x3E, 0xE3]
 
 
 class NetSim:
-    def __init__(self, nodes, seed=0, jitter=3000, gap_ms=300, fate_fn=None, spi_ns=20_000):
+    def __init__(self, nodes, seed=0, jitter=3000, gap_ms=300, fate_fn=None, spi_ns=20_000, lazy_drain=False, faults=None):
         """nodes: list of dicts {addr, kind: 'net'|'routing'|'mesh'|'master', node_id?, opts...}"""
         self.s = sim.Sched(seed=seed, jitter=jitter)
         self.air = sim.Air(self.s)
-        self.air.fate_fn = fate_fn
+        self.air.fate_fn = fate_fn or (self._fault_fate if faults else None)
+        self.faults = faults or []
+        self.lazy_drain = lazy_drain
         sim.install(self.s)
         from circuitpython_nrf24l01.rf24_network import RF24Network, RF24NetworkRoutingOnly
         from circuitpython_nrf24l01.rf24_mesh import RF24Mesh, RF24MeshNoMaster
@@ -73,7 +75,26 @@ class NetSim:
         e.update(kw)
         self.ev.append(e)
 
-    def drain(self, name):
+    def _fault_fate(self, pkt):
+        """fault rules: {src: node name, kind: 'user'|'ack'|'frag<k>'|'any', fate: 'P'|'A', to?: logical destination}"""
+        d = pkt["data"]
+        typ = d[6] if len(d) >= 8 else -1
+        for r in self.faults:
+            if r.get("src") not in (None, pkt["src"]):
+                continue
+            k = r.get("kind", "any")
+            if k == "ack" and typ != 193:
+                continue
+            if k == "user" and typ == 193:
+                continue
+            if k.startswith("frag") and not (typ in (148, 149, 150) and len(d) >= 8 and (d[7] == int(k[4:]) or (typ == 150 and int(k[4:]) == 1))):
+                continue
+            return r.get("fate", "P")
+        return "D"
+
+    def drain(self, name, force=False):
+        if self.lazy_drain and not force:
+            return
         o = self.objs[name]
         while o.available():
             fr = o.read()
@@ -105,6 +126,9 @@ class NetSim:
                     self.update(name)
                 if self.turn < len(self.jobs) and self.jobs[self.turn]["n"] == name and self._quiescent(name):
                     job = self.jobs[self.turn]
+                    if self.lazy_drain:      # everything the previous job delivered is read now, at quiescence
+                        for nm in self.objs:
+                            self.drain(nm, force=True)
                     me.deadline = s.now + job.get("budget_ms", 4000) * 1_000_000
                     try:
                         job["fn"](self, name, job)
@@ -120,6 +144,8 @@ class NetSim:
                     if self.turn >= len(self.jobs):
                         self._finish_at = s.now + self.gap
                 if self.turn >= len(self.jobs) and s.now >= getattr(self, "_finish_at", 0) and self._quiescent(name, final=True):
+                    for nm in self.objs:
+                        self.drain(nm, force=True)
                     self.stop = True
                     break
                 if chip.rx:
@@ -159,6 +185,7 @@ class NetSim:
                            acked=bool(p["ack_ok"]), has_ack=p["ack"] is not None, aa0=p["aa0"], load=p["load"]))
         ev = sorted(self.ev + pk, key=lambda e: e["t"])
         nodes = [dict(name=nd["name"], addr=nd["addr"], kind=nd["kind"], node_id=nd.get("node_id", 0),
+                      lvl=self.objs[nd["name"]].multicast_level,
                       allow_mc=bool(nd.get("opts", {}).get("allow_multicast", True)),
                       relay=bool(nd.get("opts", {}).get("multicast_relay", False))) for nd in self.spec]
         wins = []
@@ -192,7 +219,8 @@ def job_write(src_name, dst, mtype, msg, **kw):
         hdr = st.RF24NetworkHeader(dst, mtype)
         ns.ev.append(dict(k="call", n=name, api="write", to=dst, type=mtype if isinstance(mtype, int) else ord(mtype[0]),
                           id=hdr.frame_id, msg=list(msg), t=t0 // 1000, job=ns.turn, src=o.node_address,
-                          chk=list(job.get("chk", ["C07"])), level=-1))
+                          chk=list(job.get("chk", ["C07"])), level=-1, lvl=o.multicast_level,
+                          tx_timeout=o.tx_timeout, route_timeout=o.route_timeout))
         exc, r = "none", False
         try:
             if hasattr(o, "dhcp_dict") or not hasattr(o, "_pre_write"):
@@ -215,7 +243,7 @@ def job_multicast(src_name, msg, mtype, level, **kw):
         t0 = ns.s.now
         ns.ev.append(dict(k="call", n=name, api="multicast", level=-1 if level is None else level, type=mtype, msg=list(msg),
                           t=t0 // 1000, job=ns.turn, src=o.node_address, to=64, id=0, chk=list(job.get("chk", ["C07"])),
-                          lvl=o.multicast_level))
+                          lvl=o.multicast_level, tx_timeout=o.tx_timeout, route_timeout=o.route_timeout))
         exc, r = "none", False
         try:
             r = o.multicast(msg, mtype, level)
@@ -234,7 +262,8 @@ def job_call(src_name, api, fn_body, **kw):
     def fn(ns, name, job):
         t0 = ns.s.now
         ns.ev.append(dict(k="call", n=name, api=api, t=t0 // 1000, job=ns.turn, src=ns.objs[name].node_address, to=0, type=0,
-                          id=0, msg=[], level=-1, chk=list(job.get("chk", ["C07"]))))
+                          id=0, msg=[], level=-1, chk=list(job.get("chk", ["C07"])), lvl=ns.objs[name].multicast_level,
+                          tx_timeout=ns.objs[name].tx_timeout, route_timeout=ns.objs[name].route_timeout))
         exc, r = "none", None
         try:
             r = fn_body(ns, name)
